@@ -134,16 +134,27 @@ def _parse_xml_string(xml_string, parser, charset=None):
 
 # see http://www.w3.org/TR/2000/NOTE-SOAP-20000508/
 # section 5.2.1 for an example of how the id and href attributes are used.
-def resolve_hrefs(element, xmlids):
+def resolve_hrefs(element, xmlids, _seen=None):
+    # the ids that are being resolved on the way down to here: a reference to
+    # one of them is a cycle.
+    if _seen is None:
+        _seen = ()
+
     for e in element:
         if e.get('id'):
             continue # don't need to resolve this element
 
         elif e.get('href'):
-            resolved_element = xmlids[e.get('href').replace('#', '')]
+            href = e.get('href').replace('#', '')
+            resolved_element = xmlids[href]
             if resolved_element is None:
                 continue
-            resolve_hrefs(resolved_element, xmlids)
+
+            if href in _seen:
+                raise Fault('Client.SoapError', 'The references to the id %r '
+                                                      'form a cycle.' % href)
+
+            resolve_hrefs(resolved_element, xmlids, _seen + (href,))
 
             # copies the attributes
             [e.set(k, v) for k, v in resolved_element.items()]
@@ -155,7 +166,7 @@ def resolve_hrefs(element, xmlids):
             e.text = resolved_element.text
 
         else:
-            resolve_hrefs(e, xmlids)
+            resolve_hrefs(e, xmlids, _seen)
 
     return element
 
